@@ -1,6 +1,12 @@
 """Source of MANIFEST.json (regenerate with: python3-vt tools/mkmanifest.py)."""
 
 ENGINES = [
+    dict(name='tabx', path='/verif/mc/tabx.py', serves_properties=['C01', 'C02', 'C03', 'C09', 'C16', 'C17'],
+         kind_free_text='stateless explorer of tableau executions: every tie among equally ranked rule targets is a choice point (guarded scheduler seam in Rule.target), deviation-bounded DFS with replay from a fresh tableau'),
+    dict(name='refsem', path='/verif/mc/refsem', serves_properties=['C01', 'C02', 'C03', 'C04', 'C05', 'C07'],
+         kind_free_text='independent reference semantics: literal truth tables from the literature, recursive evaluator, exhaustive finite countermodel search'),
+    dict(name='gen', path='/verif/mc/gen.py', serves_properties=['C01', 'C02', 'C03', 'C09', 'C10', 'C11', 'C12', 'C13', 'C15'],
+         kind_free_text='bounded-exhaustive generators of sentences, arguments and strings'),
     dict(name='seqx', path='/verif/mc/seqx.py', serves_properties=['C18'],
          kind_free_text='explicit-state BFS over operation sequences on the real object in lock-step with a reference model'),
 ]
@@ -15,5 +21,29 @@ CHECKS = {
         note=('Trusted: the list reference model and its documented error behaviour (mc/props/c18.py ref_apply). Values beyond '
               'the universe and operation menus beyond the listed ones are not covered.')),
 }
+
+CHECKS['C03'] = dict(
+    engine='tabx+refsem', level='exploration', design_ref='DESIGN.md section 4, C03',
+    technique='bounded-exhaustive enumeration of propositional arguments x logics x options, compared with exact truth-table validity of an independent reference semantics',
+    text=('Every propositional argument up to the weight bound (quick: weight <= 1 deep/paired + two-premise pool; thorough: weight <= 3) '
+          'in all 57 logics is run to completion and must terminate without any limit and report valid exactly when no assignment of '
+          'the documented truth values designates the premises and not the conclusion. The input space is finite and enumerated completely.'),
+    note='Trusted: mc/refsem tables (cross-checked against the library by C07). Arguments above the weight bound are not covered.')
+
+CHECKS['C04'] = dict(
+    engine='refsem', level='exploration', design_ref='DESIGN.md section 4, C04',
+    technique='complete finite case analysis: every node shape x every valuation of its components, single expansion step evaluated under the reference semantics',
+    text=('For each logic and each node shape (8 truth-functional operators, 2 quantifiers, 2 modal operators; negated or not; designated or not) '
+          'the real rule is applied on a fresh branch and "node satisfied <=> some extension satisfied" is decided for all value pairs / all monadic '
+          'valuations over 1..3 constants / all valuations over up to 5 worlds in 7 access configurations; frame rules are compared with the reference '
+          'closure for every set of access pairs over <= 3 worlds. No argument-size bound is involved.'),
+    note='Trusted: mc/refsem; witnesses may copy an existing element/world (all documented clauses depend only on the set of instance values).')
+
+CHECKS['C07'] = dict(
+    engine='refsem', level='exploration', design_ref='DESIGN.md section 4, C07',
+    technique='complete enumeration of all truth-table entries against hand-transcribed literature tables',
+    text=('All 57 logics x 8 operators x all value tuples (5850 comparisons) against tables transcribed from the literature, plus the '
+          'definitional identities and base-logic equality of every modal extension. Finite and complete.'),
+    note='Trusted: the transcription in mc/refsem/tables.py.')
 
 NOT_APPLICABLE = {}
